@@ -71,6 +71,17 @@ CLAIMED["C08"] = dict(
     technique="TLA+ spec Variants (de Bruijn alpha-equivalence, fusion) + TLC enumeration/simulation, replay into the real translator, TLC trace validation (VariantTrace)",
 )
 
+CLAIMED["C09"] = dict(
+    category="model_checking",
+    text="TLC enumerates base queries and grafts every unsupported construct of the property's list (unknown operators, comparison chains, unimplemented Aggregate "
+         "forms, slices, arithmetic on sequences, raw objects, values used as sequences, getAttribute, malformed / unknown / foreign metadata, First(predicate), surplus "
+         "arguments) at every live position; each graft is sent to the real translator and TLC (JobTrace, clause Refuses) requires that it raised.",
+    design_ref="DESIGN.md section 5 C09",
+    note="Grafts are placed only where the grafted value is used by the rest of the query (dead positions are MAY); any exception counts as a refusal; wrong label counts "
+         "for AsROOTTTree are covered under C03.",
+    technique="TLA+ spec Grafts (graft positions with liveness) + TLC enumeration, replay into the real translator, TLC trace validation (JobTrace.Refuses)",
+)
+
 PENDING = "check not built yet in this round (planned, see DESIGN.md section 11); not claimed until its machinery exists"
 
 
